@@ -107,6 +107,11 @@ pub struct Fx {
 }
 
 pub async fn fixture() -> Result<Fx, String> {
+    fixture_with(20).await
+}
+
+/// `udp` = timeouts.udp of both proxies (seconds)
+pub async fn fixture_with(udp: u64) -> Result<Fx, String> {
     let origins = vec![udp_origin([127, 0, 1, 1], 0xA1).await, udp_origin([127, 0, 1, 2], 0xA2).await, udp_origin([127, 0, 1, 3], 0xA3).await];
     let (bh, bs, bq) = (free_port(), free_port(), free_port());
     let b_yaml = format!(
@@ -127,11 +132,12 @@ connectors:
 rules:
   - target: direct
 timeouts:
-  udp: 20
+  udp: {udp}
 "#,
         bh = bh,
         bs = bs,
-        bq = bq
+        bq = bq,
+        udp = udp
     );
     let b = tokio::task::spawn_blocking(move || Proxy::start("c10b", &b_yaml, &[bh, bs], None)).await.map_err(|e| e.to_string())??;
     let conn_names = ["direct", "upsocks5", "uphttp", "upquicd", "upquici"];
@@ -192,13 +198,14 @@ listeners:
       ca: /verif/pki/ca.crt
 rules:
 {rules}timeouts:
-  udp: 20
+  udp: {udp}
 "#,
         listeners = listeners,
         rules = rules,
         bs = bs,
         bh = bh,
-        bq = bq
+        bq = bq,
+        udp = udp
     );
     let a = tokio::task::spawn_blocking(move || Proxy::start("c10a", &a_yaml, &ready, None)).await.map_err(|e| e.to_string())??;
     Ok(Fx { a, b, origins, ports })
@@ -574,7 +581,7 @@ impl SubCheck for UdpCheck {
         "paths"
     }
     fn rule(&self) -> String {
-        "two real proxies (A in front of B, B with socks / http / quic listeners): every UDP listener {SOCKS5 UDP ASSOCIATE with enforceUdpClient off/on, reverse-UDP, HTTP CONNECT with Proxy-Protocol: udp (RPFM frames inline)} x upstream {direct, socks5->B, http->B inline, QUIC datagrams->B, QUIC inline->B} once paced and once as a burst of six (enumerated), then generated cases of 1-5 concurrent sessions with 1-6 interleaved datagrams each to three tagging echo origins on 127.0.1.1-3, payload sizes from {0, 1, 8, 100, 1199, 1200, 1201, 1472, 4096, 9000, 30000, 65000} or arbitrary in 12..5000 (biased to 1100-1200 and 2250-2350), plus per pairing one paced session sweeping every size in 1120..1164, 2285..2304 and 1465..1474 (fragment boundaries), sessions that vanish while a slow reply is in flight, and burst sessions whose 1-6 datagrams (<= 1472 bytes) are sent back to back (inline: in one write) with the replies judged as a multiset, and hog sessions (HTTP-inline clients that send up to 16 MiB of paced datagrams with a 4 KiB receive buffer and never read a reply, so that their tunnel backs up) next to which the other sessions of the case must work as usual (enumerated once per shared upstream {http->B, quic-datagrams->B, quic-inline->B}, each on a fresh pair of proxies and judged after the flood's backlog has stopped moving); 600 concurrent sessions with one datagram each through the direct connector (upstream sockets on ephemeral ports must not cross their replies), 105 short sessions one after the other through each shared QUIC upstream (more than its 100 concurrent streams: ended sessions must not hold a stream); oracle: every datagram (incl. the first of a session and multi-fragment ones) reaches the addressed origin exactly once with identical payload, every reply returns to the owning client labelled with the replying origin's address, no origin ever receives a datagram nobody sent (no phantom after a receive error); non-trivial = >= 2 interleaved sessions, a vanishing client, a burst of >= 2, or a payload above 1200 bytes".into()
+        "two real proxies (A in front of B, B with socks / http / quic listeners): every UDP listener {SOCKS5 UDP ASSOCIATE with enforceUdpClient off/on, reverse-UDP, HTTP CONNECT with Proxy-Protocol: udp (RPFM frames inline)} x upstream {direct, socks5->B, http->B inline, QUIC datagrams->B, QUIC inline->B} once paced and once as a burst of six (enumerated), then generated cases of 1-5 concurrent sessions with 1-6 interleaved datagrams each to three tagging echo origins on 127.0.1.1-3, payload sizes from {0, 1, 8, 100, 1199, 1200, 1201, 1472, 4096, 9000, 30000, 65000} or arbitrary in 12..5000 (biased to 1100-1200 and 2250-2350), plus per pairing one paced session sweeping every size in 1120..1164, 2285..2304 and 1465..1474 (fragment boundaries), sessions that vanish while a slow reply is in flight, and burst sessions whose 1-6 datagrams (<= 1472 bytes) are sent back to back (inline: in one write) with the replies judged as a multiset, and hog sessions (HTTP-inline clients that send up to 16 MiB of paced datagrams with a 4 KiB receive buffer and never read a reply, so that their tunnel backs up) next to which the other sessions of the case must work as usual (enumerated once per shared upstream {http->B, quic-datagrams->B, quic-inline->B}, each on a fresh pair of proxies and judged after the flood's backlog has stopped moving); 600 concurrent sessions with one datagram each through the direct connector (upstream sockets on ephemeral ports must not cross their replies), 105 short sessions one after the other through each shared QUIC upstream with timeouts.udp = 300 s (more than its 100 concurrent streams: ended sessions must not hold a stream until they time out); oracle: every datagram (incl. the first of a session and multi-fragment ones) reaches the addressed origin exactly once with identical payload, every reply returns to the owning client labelled with the replying origin's address, no origin ever receives a datagram nobody sent (no phantom after a receive error); non-trivial = >= 2 interleaved sessions, a vanishing client, a burst of >= 2, or a payload above 1200 bytes".into()
     }
     fn run(&self, part: &mut Part) {
         let n = part.tier.pick(30, 700) as usize;
@@ -633,7 +640,8 @@ impl SubCheck for UdpCheck {
             // concurrent streams): every one must open and work - sessions that ended must not hold anything
             if std::env::var("VERIF_C10_REPEAT_CONNECTOR").is_err() {
                 for cn in [3u8, 4] {
-                    let fx = fixture().await?;
+                    // a long udp idle timeout: a session that is not torn down when its client leaves stays for the whole scenario
+                    let fx = fixture_with(300).await?;
                     for i in 0..105u32 {
                         let c = Case { sessions: vec![SessionSpec { listener: if i % 2 == 0 { 0 } else { 2 }, connector: cn, sends: vec![(0, 3)], vanish: false, enforce_client: false, burst: false, hog: false }] };
                         let r = run_case(&fx, &c, tag).await;
